@@ -51,7 +51,7 @@ def _text_without(draw, bad: bytes, max_bytes=None, allow_empty=True):
     return s
 
 
-def gen_value(draw, spec, ctx=None, depth=0, window=None):
+def gen_value(draw, spec, ctx=None, depth=0, window=None, overrides=None):
     """rich (object-mode) value for `spec`"""
     if depth > 12:
         raise Unsupported("too deep")
@@ -166,6 +166,9 @@ def gen_value(draw, spec, ctx=None, depth=0, window=None):
         values = {}
         inner = se.ParseContext(values, parent=ctx)
         for name, field in spec._template_spec.items():
+            if overrides and name in overrides:
+                values[name] = overrides[name]
+                continue
             if isinstance(field, se.OptionalFlagged):
                 if field._normalize_flag_val(inner) & field._flag_val:
                     values[name] = gen_value(draw, field._ser_spec, inner, nxt)
@@ -201,10 +204,15 @@ def gen_value(draw, spec, ctx=None, depth=0, window=None):
                 raise Unsupported("no branch for window %r" % window)
         else:
             key = draw(st.sampled_from(keys))
-        inner = gen_value(draw, spec._choice_specs[key], ctx, nxt)
-        w = se.BufferWriter("<")
-        w.write(spec._choice_specs[key], inner, ctx=ctx)
-        size = len(w)
+        for _attempt in range(8):
+            inner = gen_value(draw, spec._choice_specs[key], ctx, nxt)
+            w = se.BufferWriter("<")
+            w.write(spec._choice_specs[key], inner, ctx=ctx)
+            size = len(w)
+            if key is None and size not in spec._choice_specs:
+                break
+            if key is not None and size == key:
+                break
         if key is None and size in spec._choice_specs:
             raise Unsupported("default-branch value whose size collides with a keyed branch")
         if key is not None and size != key:
